@@ -3,7 +3,7 @@
 cd "$(dirname "$0")/.."
 mkdir -p seeded/$2
 cp $1/patch.diff seeded/$2/patch.diff
-for f in test_demo.py demo.py; do [ -f $1/$f ] && cp $1/$f seeded/$2/demonstration_$f; done
+for f in $1/test_demo*.py $1/demo*.py; do [ -f $f ] && cp $f seeded/$2/demonstration_$(basename $f); done
 [ -f $1/meta.json ] && cp $1/meta.json seeded/$2/meta.json || echo '{}' > seeded/$2/meta.json
 python3 - "$2" "$3" <<'PY'
 import json, sys
